@@ -88,6 +88,10 @@ type Config struct {
 	Trace bool
 	// Horizon is the amount of simulated time without any runnable task after which the run is a hang.
 	Horizon time.Duration
+	// SiteSample in (0,1): only that fraction of the pre-yield sites (chosen per run from Seed and the
+	// site's pc) are scheduling points in this run (swarm-style subset; 0 = all sites). Post-wake points
+	// and lock blocking are never sampled away, so control is kept either way.
+	SiteSample float64
 }
 
 // Step is one scheduler decision.
@@ -365,6 +369,26 @@ func yield() {
 		s.setInfra("uncontrolled segment: task " + t.ID + " reached a yield after a blocking operation without passing a post-wake point (instrumentation gap)")
 	}
 	s.park(t, tsParked, false)
+}
+
+// YieldAt is Yield for densely placed sites (function entries): site is a build-time constant, and
+// only Config.SiteSample of the sites (chosen per run from Seed) are scheduling points in a run. The
+// check comes first so that an inactive site costs a few nanoseconds.
+func YieldAt(site uint32) {
+	s := Active()
+	if s == nil {
+		return
+	}
+	if s.cfg.SiteSample > 0 {
+		h := (uint64(site) ^ s.cfg.Seed) * 0x9e3779b97f4a7c15
+		h ^= h >> 29
+		h *= 0xbf58476d1ce4e5b9
+		h ^= h >> 32
+		if float64(h%1000000)/1000000 >= s.cfg.SiteSample {
+			return
+		}
+	}
+	yield()
 }
 
 // Y yields and returns its argument: simrt.Y(ch) <- v, simrt.Y(wg).Wait(), simrt.Y(&x).Load().
